@@ -545,14 +545,23 @@ func runOpts(payload string) string {
 	default:
 		return "BADCASE"
 	}
-	outs := []string{"init " + DumpCfg(recv)}
+	// the settings as String() shows them ("... or reflected in String()")
+	str := func() string {
+		return guard(func() string {
+			if s, ok := recv.(stackage.Stack); ok {
+				return " STR:" + hx(s.String())
+			}
+			return " STR:" + hx(recv.(stackage.Condition).String())
+		})
+	}
+	outs := []string{"init " + DumpCfg(recv) + str()}
 	if len(parts) < 2 || strings.TrimSpace(parts[1]) == "" {
 		return strings.Join(outs, " ; ")
 	}
 	for _, op := range strings.Split(parts[1], " ; ") {
 		t := strings.Fields(op)
 		ret := guard(func() string { apply(t); return "-" })
-		outs = append(outs, ret+" "+DumpCfg(recv))
+		outs = append(outs, ret+" "+DumpCfg(recv)+str())
 	}
 	return strings.Join(outs, " ; ")
 }
